@@ -104,6 +104,7 @@ class ChannelHook:
         me0 = getattr(eng, "self_under_verification", None)
         if name in ("_flush_some", "_flush_some_if_lockable") and eng.cur_func.split("@")[0].endswith(".handle_write"):
             # C12/C13: it is the I/O thread's flush that notices a dead client and tears the channel down (which releases a paused producer)
+            eng.state.ghost["io_flush_attempted"] = True
             dc = (kwargs or {}).get("do_close")
             if dc is None and args and len(args) > 1:
                 dc = args[1]
@@ -387,7 +388,12 @@ def install(reg):
     reg.add(FuncContract(CH + ".handle_write", raises=["OSError"], setup=alias,
         requires=[("io", "role_is('IO')")],
         ensures=[("C11-close-decision-monotone", "implies(old(self.will_close or self.close_when_flushed), self.will_close or self.close_when_flushed or not self.connected)"),
-                 ("C18-will-close-closes", "implies(old(self.will_close), not self.connected)")]))
+                 ("C18-will-close-closes", "implies(old(self.will_close), not self.connected)"),
+                 # the producer sleeps until the I/O thread has sent some of the backlog: the I/O thread tries to send whenever nothing is being
+                 # produced any more, and, while a task runs, as soon as the backlog has REACHED send_bytes (a backlog of exactly send_bytes that
+                 # is above the high-water mark must not be left to a producer that is already asleep)
+                 ("C12-the-io-thread-sends-a-backlog-that-has-reached-send_bytes",
+                  "implies(old(len(self.requests) == 0 or self.total_outbufs_len >= self.adj.send_bytes), io_flush_attempted())")]))
     reg.add(FuncContract(CH + ".readable", returns=Bool,
         ensures=[("C11-not-readable-after-close-decision", "implies(self.will_close or self.close_when_flushed, not result)"),
                  ("C04-no-read-while-output-pending", "implies(self.total_outbufs_len > 0, not result)"),
@@ -417,6 +423,7 @@ def install_service(reg):
     reg.spec_funcs["popped"] = ghost_flag("popped_request")
     reg.spec_funcs["received_called"] = ghost_flag("received_called")
     reg.spec_funcs["activity_refreshed"] = ghost_flag("activity_refreshed")
+    reg.spec_funcs["io_flush_attempted"] = ghost_flag("io_flush_attempted")
     reg.spec_funcs["removed_unclosed"] = lambda eng: VInt(len(eng.state.ghost.get("removed_unclosed", {})))
     reg.add(FuncContract(CH + ".service", raises=[], setup=alias,
         requires=[("worker", "role_is('W')"), ("owns-connection", "len(self.requests) >= 1")],
@@ -470,9 +477,21 @@ def install_ctor(reg):
         fresh_self=True, raises=["OSError"], check_invariant=False,
         ensures=[("C13-registered-in-map-and-active-channels", "registered() == 2"), ("connected", "self.connected"),
                  # the idle clock of a connection starts when it is accepted (a silent new connection gets a full channel_timeout)
-                 ("C18-activity-clock-starts-at-creation", "self.last_activity == self.creation_time")],
+                 ("C18-activity-clock-starts-at-creation", "self.last_activity == self.creation_time"),
+                 # write_soon() takes outbuf_lock and, still holding it, calls _flush_outbufs_below_high_watermark() which takes it again:
+                 # with a plain lock the producer blocks on itself and the backlog is never drained
+                 ("C05-the-output-lock-is-re-entrant", "reentrant(self.outbuf_lock)")],
         ensures_exc=[("C13-nothing-registered-when-set-up-fails", "registered() == 0")]))
     reg.funcs[CH + ".__init__"].frame_check = False
+    # teardown may run twice for one connection (a socket error during the flush AND the promotion of close_when_flushed in the same handle_write):
+    # removing the connection from the loop's tables is idempotent -- whatever the tables hold, nothing is raised into the I/O loop
+    reg.classes[CH].fields["_fileno"] = Opt(Int)
+    reg.classes[CH].fields["_map"] = Opaque("socketmap")
+    reg.inline.add("wasyncore.dispatcher.del_channel")
+    reg.add(FuncContract(CH + ".del_channel", params={"map": Opt(Opaque("socketmap"))}, raises=[],
+        requires=[("io", "role_is('IO')")],
+        ensures=[("C13-unregistering-a-connection-never-fails", "self._fileno is None")]))
+    reg.funcs[CH + ".del_channel"].frame_check = False
 
 
 def attach(eng, reg, qual):
